@@ -16,7 +16,7 @@ VERIF = os.path.dirname(os.path.dirname(os.path.abspath(__file__)))
 
 
 def main(argv):
-    ids = argv or sorted(os.listdir(os.path.join(VERIF, "seeded")))
+    ids = argv or sorted(d for d in os.listdir(os.path.join(VERIF, "seeded")) if os.path.isdir(os.path.join(VERIF, "seeded", d)))
     p = subprocess.run([os.path.join(VERIF, "tools", "mutmatrix.sh")] + ids, cwd=VERIF, capture_output=True, text=True)
     print(p.stdout)
     missed, caught_p, caught_b = [], 0, 0
